@@ -112,14 +112,35 @@ class AsyncPwServer(P.RecServer):
         return fut
 
 
-def run_server(pos, payloads, strict, rekey=False, no_seq_reset=False, seed=0):
+class KbdServer(AsyncPwServer):
+    """authenticates through keyboard-interactive (the one method whose handler also processes packets)"""
+
+    def password_auth_supported(self):
+        return False
+
+    def kbdint_auth_supported(self):
+        return True
+
+    def get_kbdint_challenge(self, username, lang, submethods):
+        return '', '', '', [('Password:', False)]
+
+    def validate_kbdint_response(self, username, responses):
+        self.log.append(('validate_kbdint', tuple(responses)))
+        return list(responses) == ['pw']
+
+
+def run_server_kbd(pos, payloads, strict, **kw):
+    return run_server(pos, payloads, strict, auth='kbdint', **kw)
+
+
+def run_server(pos, payloads, strict, rekey=False, no_seq_reset=False, seed=0, auth='password'):
     env = {}
 
     def on_start(sess):
         sess.chan.write(b'result')
         sess.chan.exit(3)
     env['session_factory'] = lambda: P.RecSession('srv', on_start=on_start)
-    w = H.SrvWorld(seed=seed, env=env, server_factory=AsyncPwServer, sopts=dict(login_timeout=120))
+    w = H.SrvWorld(seed=seed, env=env, server_factory=AsyncPwServer if auth == 'password' else KbdServer, sopts=dict(login_timeout=120))
     rp = InjectingPeer('client', strict=strict)
     rp.rand = w.rp.rand
     w.rp = rp
@@ -141,6 +162,9 @@ def run_server(pos, payloads, strict, rekey=False, no_seq_reset=False, seed=0):
         w.flush()
         steps = [lambda: rp.send(rp.service_request()),
                  lambda: rp.send(rp.password_request('user', 'pw'))]
+        if auth == 'kbdint':
+            steps = [steps[0], lambda: rp.send(rp.userauth_request('user', 'keyboard-interactive', R.string('') + R.string(''))),
+                     lambda: rp.send(R.byte(61) + R.u32(1) + R.string('pw'))]
         for st in steps:
             if rp.closed or w.server_closed() or rp.kex_done < 1:
                 break
@@ -186,6 +210,7 @@ def run_server(pos, payloads, strict, rekey=False, no_seq_reset=False, seed=0):
             'exit': [p for t, p in rp.inbox if t == R.MSG_CHANNEL_REQUEST][-1:] ,
             'session_id_same': w.conn._session_id == rp.session_id if rp.session_id else None,
             'unimplemented': rp.types().count(R.MSG_UNIMPLEMENTED),
+            'auth_replies': (rp.types().count(R.MSG_USERAUTH_FAILURE), rp.types().count(R.MSG_USERAUTH_SUCCESS), rp.types().count(60)),
             'ref_error': obs.get('ref_error') or (str(w.proto.error) if w.proto.error else None),
             'loop_exc': [repr(c.get('exception') or c.get('message')) for c in w.loop.unretrieved()],
             'kex_done': rp.kex_done,
@@ -341,9 +366,13 @@ def legal(role_under_test, pos, t, strict):
         return False
     if role_under_test == 'server':         # messages a client may send
         if pos == (5, 1):
-            return t in (5,)
+            # the service request, or already an authentication request (asyncssh does not insist on the
+            # service request coming first; the property admits "transport and authentication messages")
+            return t in (5, 50)
         if pos == (50, 1) or pos == 'pending-auth':
             return t in (50,) or (pos == (50, 1) and t == 7)
+        if pos == (61, 1):
+            return t in (50, 61)        # the answer to the pending INFO_REQUEST, or a new request
         return t in (80, 81, 82) or 90 <= t <= 100 or t == 50
     else:                                   # messages a server may send
         if pos == (6, 1):
@@ -406,7 +435,8 @@ def _diff(obs, base):
 def worker(job):
     role, pos, strict, types = job
     acc = core.Acc()
-    runner = run_server if role == 'server' else run_client
+    runner = run_server if role == 'server' else run_server_kbd if role == 'server-kbd' else run_client
+    label_role, role = role, role.split('-')[0]
     base = runner(None, (), strict)
     if base['ended'] and role == 'server':
         pass
@@ -415,14 +445,14 @@ def worker(job):
             obs = runner(pos, (payload,), strict)
             outcome = 'ended:%s' % obs['exc'] if obs['ended'] else \
                 ('same' if strip(obs) == strip(base) else 'differs')
-            acc.add(core.digest((role, str(pos), strict, t, shape, outcome)),
+            acc.add(core.digest((label_role, str(pos), strict, t, shape, outcome)),
                     nontrivial=obs['injected'], transitions=1,
                     sample={'role_under_test': role, 'position': str(pos), 'strict': strict,
                             'type': t, 'shape': shape, 'outcome': outcome} if t in (52, 90) else None)
             acc.count('outcome:%s' % outcome.split(':')[0])
             for kind, detail in judge(role, pos, t, shape, strict, obs, base):
-                acc.violation('phase:%s:%s:pos=%s:type=%d:%s:strict=%s' % (kind, role, pos, t, shape, strict),
-                              detail, {'role': role, 'pos': pos, 'strict': strict, 'type': t,
+                acc.violation('phase:%s:%s:pos=%s:type=%d:%s:strict=%s' % (kind, label_role, pos, t, shape, strict),
+                              detail, {'role': label_role, 'pos': pos, 'strict': strict, 'type': t,
                                        'shape': shape})
     return acc
 
@@ -599,6 +629,10 @@ def main(tier, seed):
         for pos in CLI_POSITIONS:
             for i in range(0, len(TYPES), 17):
                 jobs.append(('client', pos, strict, TYPES[i:i + 17]))
+        # a server whose user logs in through keyboard-interactive: the exchange itself and everything after it
+        for pos in [(50, 1), (61, 1), (90, 1), (98, 1), 'end']:
+            for i in range(0, len(TYPES), 17):
+                jobs.append(('server-kbd', pos, strict, TYPES[i:i + 17]))
     # determinism
     a = run_server((50, 1), (wellformed(90, 'client'),), True, seed=seed)
     b = run_server((50, 1), (wellformed(90, 'client'),), True, seed=seed)
@@ -652,8 +686,8 @@ def replay(rep):
         acc = seqreset_checks()
         print(json.dumps(acc.violations, indent=1, default=repr))
         return 1 if acc.violations else 0
-    runner = run_server if r['role'] == 'server' else run_client
-    sender = 'client' if r['role'] == 'server' else 'server'
+    runner = run_server if r['role'] == 'server' else run_server_kbd if r['role'] == 'server-kbd' else run_client
+    sender = 'client' if r['role'].startswith('server') else 'server'
     pos = tuple(r['pos']) if isinstance(r['pos'], list) else r['pos']
     base = runner(None, (), r['strict'])
     if 'pair' in r:
@@ -663,7 +697,7 @@ def replay(rep):
     else:
         payload = dict(shapes(r['type'], sender))[r['shape']]
         obs = runner(pos, (payload,), r['strict'])
-        v = judge(r['role'], pos, r['type'], r['shape'], r['strict'], obs, base)
+        v = judge(r['role'].split('-')[0], pos, r['type'], r['shape'], r['strict'], obs, base)
     print(json.dumps({'replay': r, 'observation': obs, 'violations': v}, indent=1, default=repr))
     if v:
         print('VIOLATION property=%s replay=(given)' % PROP)
